@@ -60,8 +60,37 @@ class Normalizer(ast.NodeTransformer):
     def _clean_body(self, body):
         if len(body) > 1:
             kept = [s for s in body if not isinstance(s, ast.Pass)]
-            return kept or [body[0]]
-        return body
+            body = kept or [body[0]]
+        return self._fold_min(body)
+
+    @staticmethod
+    def _fold_min(body):
+        """`x = a; if b < x: x = b`  ->  `x = min(a, b)`   (two-argument min written out; a, b plain names / attributes / constants)"""
+        def simple(e):
+            return isinstance(e, (ast.Name, ast.Constant)) or (isinstance(e, ast.Attribute) and simple(e.value))
+        out = []
+        i = 0
+        while i < len(body):
+            st = body[i]
+            nx = body[i + 1] if i + 1 < len(body) else None
+            if isinstance(st, ast.Assign) and len(st.targets) == 1 and isinstance(st.targets[0], ast.Name) and simple(st.value) \
+                    and isinstance(nx, ast.If) and not nx.orelse and len(nx.body) == 1 and isinstance(nx.body[0], ast.Assign) \
+                    and len(nx.body[0].targets) == 1 and isinstance(nx.body[0].targets[0], ast.Name) and nx.body[0].targets[0].id == st.targets[0].id \
+                    and isinstance(nx.test, ast.Compare) and len(nx.test.ops) == 1 and simple(nx.body[0].value):
+                x = st.targets[0].id
+                b = nx.body[0].value
+                l, op, r = nx.test.left, nx.test.ops[0], nx.test.comparators[0]
+                fits = (isinstance(op, (ast.Lt, ast.LtE)) and ast.dump(l) == ast.dump(b) and isinstance(r, ast.Name) and r.id == x) or \
+                    (isinstance(op, (ast.Gt, ast.GtE)) and ast.dump(r) == ast.dump(b) and isinstance(l, ast.Name) and l.id == x)
+                if fits and not (isinstance(b, ast.Name) and b.id == x):
+                    call = ast.Call(func=ast.Name(id='min', ctx=ast.Load()), args=[st.value, b], keywords=[])
+                    new = ast.Assign(targets=st.targets, value=ast.copy_location(call, st.value))
+                    out.append(ast.copy_location(new, st))
+                    i += 2
+                    continue
+            out.append(st)
+            i += 1
+        return out
 
     def visit_If(self, node):
         self.generic_visit(node)
